@@ -160,8 +160,8 @@ def bounded_contract(contract, seed, seconds=10.0, budget=20000):
     fsrc = frontend.get_function(contract.fq)
     names = [p for p, _ in fsrc.params()]
     types = [contract.args.get(n, "int") for n in names]
-    for t in types:
-        if t not in ("int", "bool") and t not in gens:
+    for name, t in zip(names, types):
+        if t not in ("int", "bool") and t not in gens and ("param:" + name) not in gens:
             return {"ran": False, "reason": "no native generator for parameter type %s" % t, "evaluations": 0, "fail": None}
     rng = random.Random(seed)
     t0 = time.time()
@@ -169,7 +169,9 @@ def bounded_contract(contract, seed, seconds=10.0, budget=20000):
     while time.time() - t0 < seconds and n < budget:
         inputs = {}
         for name, t in zip(names, types):
-            if t == "int":
+            if ("param:" + name) in gens:
+                inputs[name] = gens["param:" + name](rng)
+            elif t == "int":
                 inputs[name] = rng.choice([rng.randint(-3, 17), rng.randint(-300, 300), rng.randint(0, 2 ** 34)])
             elif t == "bool":
                 inputs[name] = rng.random() < 0.5
